@@ -5,7 +5,7 @@
    walks inside {0..n-1}, None iff there is none; [dist_correct n L D]: that, for every ordered pair i <> j. *)
 From Coq Require Import QArith List Arith ZArith Lia.
 From BCT Require Import Base.Mat Base.ListX Model.Distance
-  Proofs.DistanceBase Proofs.DistanceFloyd Proofs.DistanceBin Proofs.DistanceOther Proofs.DistanceReach.
+  Proofs.DistanceBase Proofs.DistanceFloyd Proofs.DistanceBin Proofs.DistanceOther Proofs.DistanceReach Proofs.DistanceWei.
 Import ListNotations.
 Open Scope Q_scope.
 
@@ -59,13 +59,25 @@ Theorem C03_agree_any : forall n L D, nonneg n L -> dist_correct n L D ->
   forall i j, (i < n)%nat -> (j < n)%nat -> i <> j -> oeq (spl (floyd n L) i j) (D i j).
 Proof. exact agree_any. Qed.
 
-(* ---------- distance_wei (Dijkstra as written): soundness half only ---------- *)
-(* full statement: DistanceOther.distance_wei_full_statement (NOT proved; tested against the oracle and the
-   proved Floyd model).  Proved: every finite D[i,j] is the length of a real walk with exactly B[i,j] edges. *)
-Theorem C03_distance_wei_partial : forall n G D B, distance_wei n G = Some (D, B) ->
-  forall i j x, (i < n)%nat -> (j < n)%nat -> i <> j -> D i j = Some x ->
-    exists mid, below n mid /\ S (length mid) = B i j /\ oeq (wl (Lg G) i mid j) (Some x).
-Proof. exact distance_wei_partial. Qed.
+(* ---------- distance_wei (Dijkstra as written): FULL correctness for non-negative entries ---------- *)
+(* [Lg G]: nonzero entries of G are the connection lengths.  D[i,j] is the minimum total length over all walks,
+   infinite exactly when there is none, and B[i,j] is the number of edges of a walk of that minimum length
+   (whenever the fuelled loop returns). *)
+Theorem C03_distance_wei_correct : forall n G D B,
+  (forall i j, (i < n)%nat -> (j < n)%nat -> 0 <= G i j) ->
+  distance_wei n G = Some (D, B) ->
+  dist_correct n (Lg G) D /\
+  (forall i j x, (i < n)%nat -> (j < n)%nat -> i <> j -> D i j = Some x ->
+     exists mid, below n mid /\ S (length mid) = B i j /\ oeq (wl (Lg G) i mid j) (Some x)) /\
+  (forall i j, (i < n)%nat -> (j < n)%nat -> i <> j -> (D i j <> None <-> reachable n (Lg G) i j)).
+Proof. exact distance_wei_correct. Qed.
+
+(* corollary of the two correctness theorems (no longer only a test) *)
+Theorem C03_agree_wei_floyd : forall n G D B,
+  (forall i j, (i < n)%nat -> (j < n)%nat -> 0 <= G i j) ->
+  distance_wei n G = Some (D, B) ->
+  forall i j, (i < n)%nat -> (j < n)%nat -> i <> j -> oeq (spl (floyd n (Lg G)) i j) (D i j).
+Proof. exact agree_wei_floyd. Qed.
 
 Theorem C03_distance_wei_diag_zero : forall n G D B, distance_wei n G = Some (D, B) ->
   forall i, (i < n)%nat -> D i i = Some 0 /\ B i i = 0%nat.
@@ -115,10 +127,12 @@ Theorem C03_efficiency_bin_mean_inverse : forall n A e, (2 <= n)%nat -> efficien
     e = EFin (meanQ (map (fun c => oinv (olen_of_nat (D (fst c) (snd c)))) (offdiag n))).
 Proof. exact efficiency_bin_mean_inverse. Qed.
 
-Theorem C03_efficiency_wei_mean_inverse : forall n W e, (2 <= n)%nat -> efficiency_wei n W = Some e ->
-  exists D B, distance_wei n (invertQ W) = Some (D, B) /\
+Theorem C03_efficiency_wei_mean_inverse : forall n W e, (2 <= n)%nat ->
+  (forall i j, (i < n)%nat -> (j < n)%nat -> 0 <= W i j) ->
+  efficiency_wei n W = Some e ->
+  exists D B, distance_wei n (invertQ W) = Some (D, B) /\ dist_correct n (Lg (invertQ W)) D /\
     e = EFin (meanQ (map (fun c => oinv (D (fst c) (snd c))) (offdiag n))).
-Proof. exact efficiency_wei_mean_inverse. Qed.
+Proof. exact efficiency_wei_correct. Qed.
 
 Theorem C03_rout_efficiency_mean_inverse : forall nlog n A tr, (2 <= n)%nat ->
   let S := spl (distance_wei_floyd nlog n A tr) in
@@ -150,7 +164,8 @@ Print Assumptions C03_distance_bin_diag_zero.
 Print Assumptions C03_distance_bin_inf_iff.
 Print Assumptions C03_agree_floyd_bin.
 Print Assumptions C03_agree_any.
-Print Assumptions C03_distance_wei_partial.
+Print Assumptions C03_distance_wei_correct.
+Print Assumptions C03_agree_wei_floyd.
 Print Assumptions C03_distance_wei_diag_zero.
 Print Assumptions C03_breadthdist_partial.
 Print Assumptions C03_breadthdist_reach_flag.
